@@ -25,20 +25,20 @@ var verifRoot = "/verif"
 var outRoot = envOr("GOVERIF_OUT", "/verif")
 
 type PropSpec struct {
-	ID        string
-	Kinds     []string        // obligation kinds generated
-	FuncMatch *regexp.Regexp  // entry functions
-	Own       func(o *Obligation) bool // obligations that belong to this property
+	ID         string
+	Kinds      []string                 // obligation kinds generated
+	FuncMatch  *regexp.Regexp           // entry functions
+	Own        func(o *Obligation) bool // obligations that belong to this property
 	PhaseBOnly bool
-	Note      string
-	Decided   []string
+	Note       string
+	Decided    []string
 	OutOfReach []string
-	Bounded   []string
-	Standin   []string // classes of the bounded formatter stand-in owned by this property
-	Extra     func(e *Engine) []*Obligation // further obligations decided outside the path executor (ALIAS, READS)
-	Pairs     bool                          // bounded stand-in: pairs of equivalent spellings (C08)
-	Crash     bool                          // bounded stand-in: crash corpus through the real entry points (C11)
-	Faults    bool                          // bounded stand-in: fault injection corpus (C12)
+	Bounded    []string
+	Standin    []string                      // classes of the bounded formatter stand-in owned by this property
+	Extra      func(e *Engine) []*Obligation // further obligations decided outside the path executor (ALIAS, READS)
+	Pairs      bool                          // bounded stand-in: pairs of equivalent spellings (C08)
+	Crash      bool                          // bounded stand-in: crash corpus through the real entry points (C11)
+	Faults     bool                          // bounded stand-in: fault injection corpus (C12)
 }
 
 type KnownFinding struct {
@@ -82,7 +82,9 @@ func loadLedger(prop string) *Ledger {
 func propSpecs() map[string]*PropSpec {
 	all := regexp.MustCompile(`.`)
 	label := func(id string) func(o *Obligation) bool {
-		return func(o *Obligation) bool { return strings.Contains(o.Name, "["+id+"]") || strings.Contains(o.Desc, "["+id+"]") }
+		return func(o *Obligation) bool {
+			return strings.Contains(o.Name, "["+id+"]") || strings.Contains(o.Desc, "["+id+"]")
+		}
 	}
 	_ = label
 	return map[string]*PropSpec{
@@ -94,27 +96,27 @@ func propSpecs() map[string]*PropSpec {
 				}
 				return !strings.Contains(o.Desc, "[C")
 			},
-			Decided: []string{"no panic (nil dereference, failed type assertion, index/slice bounds, nil-map write, division, overflow, negative Repeat count, template/regexp Must) in any non-generated function of internal/model, internal/parser, cmd", "termination of every loop and every recursive function (variants)", "supporting preconditions, loop invariants and postconditions the safety proofs rely on"},
+			Decided:    []string{"no panic (nil dereference, failed type assertion, index/slice bounds, nil-map write, division, overflow, negative Repeat count, template/regexp Must) in any non-generated function of internal/model, internal/parser, cmd", "termination of every loop and every recursive function (variants)", "supporting preconditions, loop invariants and postconditions the safety proofs rely on"},
 			OutOfReach: []string{"ANTLR runtime and generated parser (trusted w.r.t. grammar-derived tree contracts)", "cgo boundary, cobra dispatch, OS"}},
 		"C12": {ID: "C12", Faults: true,
 			Bounded: []string{"BOUNDED (not counted as proved): every fault class of the property injected at each site of a base program produces a diagnostic carrying the line of the offending declaration, and well-formed programs using every documented construct and option value produce none (real ParseFile)"},
-			Kinds: []string{"POST", "PRE", "SAFE", "INV"}, FuncMatch: regexp.MustCompile(`internal/model\.|PacketDslVisitorImpl|parser\.ParseFile|cmd\.(Compile|Execute|init)`),
-			Own:     func(o *Obligation) bool { return strings.Contains(o.Name, "C12:") },
+			Kinds:   []string{"POST", "PRE", "SAFE", "INV"}, FuncMatch: regexp.MustCompile(`internal/model\.|PacketDslVisitorImpl|parser\.ParseFile|cmd\.(Compile|Execute|init)`),
+			Own: func(o *Obligation) bool { return strings.Contains(o.Name, "C12:") },
 			Decided: []string{"D1 AddOption: unknown name / illegal value / duplicate => exactly one (at least one for illegal) new diagnostic carrying the declaration's line, accepted options stored without diagnostic", "D2 AddPacket: duplicate name, second root => one diagnostic with the packet's line and the model unchanged; otherwise stored in map and list, no diagnostic", "D3 AddMetaData: duplicate => one diagnostic with its line; otherwise stored", "D8 Compile: a parse error or any model diagnostic => non-nil error, no file-system effect, WriteCodeToFile never called",
 				"D4 length fields occur only in the root packet and only as its length field (VisitPacketDefinition)", "D5 a match key seen earlier in the same match yields a diagnostic (VisitMatchFieldDeclaration)",
 				"D6 resolveFields / ResolveDependencies: unless a new diagnostic was added, every object field of every packet refers to a declared packet and every match alternative names a declared packet (top-level fields; set-once history constraint on the reference); carried by contract through VisitPacket and ParseFile to Compile: a nil result means every generator was handed a model whose top-level references are all resolved",
 				"D7 a packet's fields have pairwise distinct names (VisitPacketDefinition)", "line provenance: every diagnostic added by the visitor carries a line >= 1 taken from a token of the offending declaration; the membership test behind illegal option values is exact (contains)"},
 			OutOfReach: []string{"text of ANTLR's own syntax messages", "that each remaining fault class (duplicate packet / MetaData entry / option at visitor level, references nested in inline objects) yields a diagnostic for all inputs: covered by the fault corpus only", "acyclicity of references (containsCycle) is not under contract"}},
 		"C16": {ID: "C16", Kinds: []string{"POST", "PRE", "SAFE"}, FuncMatch: regexp.MustCompile(`cmd\.|parser\.(FormatPacketDsl|WriteCodeToFile)$`),
-			Own:     func(o *Obligation) bool { return strings.Contains(o.Name, "C16:") },
-			Decided: []string{"format: exactly one call of the formatter on the given text; on a formatter error exit status 1 and no file-system effect; with -f exactly one WriteFile(file, result); without -f exactly one stdout line result+\"\\n\" and no file-system effect", "C export: formatter called on GoString(dsl), returns CString(result) or CString(\"Error:\"+err)", "compile: ParseFile called once on the input; see evidence for the per-target clauses"},
+			Own:        func(o *Obligation) bool { return strings.Contains(o.Name, "C16:") },
+			Decided:    []string{"format: exactly one call of the formatter on the given text; on a formatter error exit status 1 and no file-system effect; with -f exactly one WriteFile(file, result); without -f exactly one stdout line result+\"\\n\" and no file-system effect", "C export: formatter called on GoString(dsl), returns CString(result) or CString(\"Error:\"+err)", "compile: ParseFile called once on the input; see evidence for the per-target clauses"},
 			OutOfReach: []string{"cobra flag parsing and command dispatch, cgo string conversion (trusted library contracts)"}},
 		"C08": {ID: "C08", Kinds: []string{"POST", "FRAME", "PRE", "SAFE"}, FuncMatch: regexp.MustCompile(`PacketDslVisitorImpl\)\.(VisitFieldDefinitionWithAttribute|VisitFieldDefinition|VisitMetaField|metaDataDeclarationToField|metaDataDeclarationToMetaData|VisitPacketDefinition)$|model\.NewConfiguration$`),
 			Own: func(o *Obligation) bool {
 				return strings.Contains(o.Name, "C08:") || o.Kind == "FRAME" && !o.PhaseB
 			},
-			Extra: func(e *Engine) []*Obligation { return append(e.aliasObligations(), e.readsObligations()...) },
-			Pairs: true,
+			Extra:   func(e *Engine) []*Obligation { return append(e.aliasObligations(), e.readsObligations()...) },
+			Pairs:   true,
 			Bounded: []string{"BOUNDED (not counted as proved): for an enumerated set of pairs of texts related by the meaning-preserving rewrites the property lists (each rewrite in each syntactic context, on base programs using every field kind), the real compiler produces byte-identical file sets for all six targets from both texts"},
 			Decided: []string{"type aliases: every spelling of a basic-type token (alias table read from the grammar) is normalised to one name by getBasicType and by each GetType method that holds a spelling (ALIAS, complete over the finite alias table)",
 				"comments, doc strings, whitespace, separators, positions: no generator function and no model function it calls loads Doc / Description / Line / Column or a raw type spelling outside the normalisers (READS, per function); the model builder calls no hidden-channel or optional-separator accessor",
@@ -123,26 +125,28 @@ func propSpecs() map[string]*PropSpec {
 			OutOfReach: []string{"zchar[n] versus explicit NUL right padding, inline versus prefixed attribute placement, key list versus expanded pairs, MetaData-typed field versus inlined type: these relate two runs of the visitor (relational); the engine has no two-run obligations in this revision",
 				"default padding versus none at the level of emitted text"}},
 		"C09": {ID: "C09", Kinds: []string{"POST", "PRE", "SAFE"}, FuncMatch: regexp.MustCompile(`parser\.FormatPacketDsl$|cmd\.(init\$2|FormatPacketDslExport)$`),
-			Own:     func(o *Obligation) bool { return strings.Contains(o.Name, "C09:") || strings.Contains(o.Name, "format-error-exit") },
-			Standin: []string{"panic", "reparse", "tokens", "comments", "error-path", "outputs"},
-			Extra:   func(e *Engine) []*Obligation { return e.coverObligations() },
-			Decided: []string{"on a syntax error FormatPacketDsl returns its input unchanged together with an error (postcondition, all inputs)", "format -f / -d: on a formatter error exit status 1 and no file-system effect (exits clause, all inputs)", "COVER: every content element of every grammar rule (sub-rule, token with variable text, optional or repeated keyword) is read by some formatter function or printed generically with an enclosing rule - a necessary condition for retaining it; derived from the grammar, decided on the SSA"},
-			Bounded: []string{"BOUNDED (not counted as proved): on an enumerated corpus of grammar-derived sentences with comments at token boundaries, key lists of length 1..16 and fault templates, the real formatter's result re-parses, keeps the default-channel token sequence (optional ',' ';' ignored) and the comment sequence, and where the input compiles the formatted text compiles to byte-identical file sets for all six targets"},
+			Own: func(o *Obligation) bool {
+				return strings.Contains(o.Name, "C09:") || strings.Contains(o.Name, "format-error-exit")
+			},
+			Standin:    []string{"panic", "reparse", "tokens", "comments", "error-path", "outputs"},
+			Extra:      func(e *Engine) []*Obligation { return e.coverObligations() },
+			Decided:    []string{"on a syntax error FormatPacketDsl returns its input unchanged together with an error (postcondition, all inputs)", "format -f / -d: on a formatter error exit status 1 and no file-system effect (exits clause, all inputs)", "COVER: every content element of every grammar rule (sub-rule, token with variable text, optional or repeated keyword) is read by some formatter function or printed generically with an enclosing rule - a necessary condition for retaining it; derived from the grammar, decided on the SSA"},
+			Bounded:    []string{"BOUNDED (not counted as proved): on an enumerated corpus of grammar-derived sentences with comments at token boundaries, key lists of length 1..16 and fault templates, the real formatter's result re-parses, keeps the default-channel token sequence (optional ',' ';' ignored) and the comment sequence, and where the input compiles the formatted text compiles to byte-identical file sets for all six targets"},
 			OutOfReach: []string{"token / comment preservation and output equality for all inputs (COVER obligations are not built in this revision)"}},
 		"C10": {ID: "C10", Kinds: []string{"POST"}, FuncMatch: regexp.MustCompile(`parser\.FormatPacketDsl$`),
-			Own:     func(o *Obligation) bool { return strings.Contains(o.Name, "C09:error") },
-			Standin: []string{"idempotent", "relayout"},
-			Extra:   func(e *Engine) []*Obligation { return e.layoutObligations() },
-			Decided: []string{"layout independence for all inputs: every formatter function observes its input only through token text / type / index, tree accessors, hidden-channel queries and equality of two token lines (LAYOUT, per function, decided on the SSA); with the trusted lexer fact that white space is skipped, two texts with the same tokens and the same comment-on-the-line-of-the-same-token relation give the formatter nothing to tell them apart", "(supporting) error path of FormatPacketDsl"},
-			Bounded: []string{"BOUNDED (not counted as proved): on the same enumerated corpus format(format(x)) == format(x), and two token-aware whitespace re-layouts of x (every gap one blank / one line break; gaps widened with tabs, blanks and blank lines; comments stay on the line of the same token) format to the same text"},
+			Own:        func(o *Obligation) bool { return strings.Contains(o.Name, "C09:error") },
+			Standin:    []string{"idempotent", "relayout"},
+			Extra:      func(e *Engine) []*Obligation { return e.layoutObligations() },
+			Decided:    []string{"layout independence for all inputs: every formatter function observes its input only through token text / type / index, tree accessors, hidden-channel queries and equality of two token lines (LAYOUT, per function, decided on the SSA); with the trusted lexer fact that white space is skipped, two texts with the same tokens and the same comment-on-the-line-of-the-same-token relation give the formatter nothing to tell them apart", "(supporting) error path of FormatPacketDsl"},
+			Bounded:    []string{"BOUNDED (not counted as proved): on the same enumerated corpus format(format(x)) == format(x), and two token-aware whitespace re-layouts of x (every gap one blank / one line break; gaps widened with tabs, blanks and blank lines; comments stay on the line of the same token) format to the same text"},
 			OutOfReach: []string{"idempotence for all inputs: it needs the lexer's behaviour on the emitted text, which no contract on the Go functions can state"}},
 		"C13": {ID: "C13", Kinds: []string{"DET"}, FuncMatch: all,
-			Own:     func(o *Obligation) bool { return o.Kind == "DET" },
-			Decided: []string{"no call to an impure source (time, rand, environment) in any function of model, parser, cmd", "every effect of a `range` over a map that is visible outside the iteration commutes with the same effect for any other key (map updates: distinct keys or equal values; builder appends: equal text; stores: equal values; file-system effects: distinct paths; loop-carried variables: commutative update, or the collect-keys-then-sort idiom)"},
+			Own:        func(o *Obligation) bool { return o.Kind == "DET" },
+			Decided:    []string{"no call to an impure source (time, rand, environment) in any function of model, parser, cmd", "every effect of a `range` over a map that is visible outside the iteration commutes with the same effect for any other key (map updates: distinct keys or equal values; builder appends: equal text; stores: equal values; file-system effects: distinct paths; loop-carried variables: commutative update, or the collect-keys-then-sort idiom)"},
 			OutOfReach: []string{"order of the 'Generated code for packet' lines on stdout (not part of the file set)", "nondeterminism inside library code (none known: fmt, strings, strcase are deterministic)"}},
 		"C14": {ID: "C14", Kinds: []string{"FRAME"}, FuncMatch: all, PhaseBOnly: true,
-			Own:     func(o *Obligation) bool { return o.Kind == "FRAME" && o.PhaseB },
-			Decided: []string{"every store, map update and delete executed by a generator function targets an object allocated by that activation (or the generator's own hasGen memo table): no generator changes the parsed model or any other pre-existing object, hence the files of one target cannot depend on which other targets ran", "together with C13 (output is a function of the model) this gives independence of target subsets and orders"},
+			Own:        func(o *Obligation) bool { return o.Kind == "FRAME" && o.PhaseB },
+			Decided:    []string{"every store, map update and delete executed by a generator function targets an object allocated by that activation (or the generator's own hasGen memo table): no generator changes the parsed model or any other pre-existing object, hence the files of one target cannot depend on which other targets ran", "together with C13 (output is a function of the model) this gives independence of target subsets and orders"},
 			OutOfReach: []string{"cgo / OS level interference between writes of different targets into overlapping directories"}},
 	}
 }
@@ -556,35 +560,35 @@ func report(e *Engine, spec *PropSpec, r *propResult, tier string, seed int, wal
 		level = "other"
 	}
 	cov := map[string]interface{}{
-		"obligations":              len(r.owned),
-		"discharged":               discharged,
-		"checker_cmd":              "/verif/bin/goverif check -tier " + tier + " " + spec.ID,
-		"trusted_base":             []string{"golang.org/x/tools go/ssa v0.29.0", "z3 4.8.12", "z3 5.1.0", "cvc5 1.0", "ANTLR runtime + generated parser w.r.t. grammar-derived tree contracts", "library contracts in goverif/externs.go (fmt, strings, strconv, regexp, sort, os, html/template, strcase, cobra, cgo)"},
-		"explanation":              expl,
-		"samples":                  samples,
-		"by_kind":                  byKind,
-		"by_backend":               byBackend,
-		"solver_secs_sum":          solverSecs,
-		"solver_secs_max":          maxSecs,
-		"slowest":                  slowest(r.owned, 8),
-		"solver_secs_max_query":    maxQuerySecs(r.owned),
-		"needed_second_solver":     secondSolver(r.owned),
-		"functions_verified":       len(r.reports),
+		"obligations":                     len(r.owned),
+		"discharged":                      discharged,
+		"checker_cmd":                     "/verif/bin/goverif check -tier " + tier + " " + spec.ID,
+		"trusted_base":                    []string{"golang.org/x/tools go/ssa v0.29.0", "z3 4.8.12", "z3 5.1.0", "cvc5 1.0", "ANTLR runtime + generated parser w.r.t. grammar-derived tree contracts", "library contracts in goverif/externs.go (fmt, strings, strconv, regexp, sort, os, html/template, strcase, cobra, cgo)"},
+		"explanation":                     expl,
+		"samples":                         samples,
+		"by_kind":                         byKind,
+		"by_backend":                      byBackend,
+		"solver_secs_sum":                 solverSecs,
+		"solver_secs_max":                 maxSecs,
+		"slowest":                         slowest(r.owned, 8),
+		"solver_secs_max_query":           maxQuerySecs(r.owned),
+		"needed_second_solver":            secondSolver(r.owned),
+		"functions_verified":              len(r.reports),
 		"functions_with_written_contract": nContract,
-		"functions":                funcs,
-		"functions_out_of_subset":  outOfSubset,
-		"known_findings":           knownHit,
-		"undecided":                undecided,
-		"vanished":                 vanished,
-		"newly_proved":             newProved,
-		"vacuity_probes":           len(r.vac),
-		"vacuity_failures":         vacFail,
-		"conjuncts_decided":        spec.Decided,
-		"conjuncts_out_of_reach":   spec.OutOfReach,
-		"bounded_standins":         spec.Bounded,
-		"bounded_standin_run":      standinInfo,
-		"contract_files":           e.contracts.files,
-		"grammar":                  e.tree.src,
+		"functions":                       funcs,
+		"functions_out_of_subset":         outOfSubset,
+		"known_findings":                  knownHit,
+		"undecided":                       undecided,
+		"vanished":                        vanished,
+		"newly_proved":                    newProved,
+		"vacuity_probes":                  len(r.vac),
+		"vacuity_failures":                vacFail,
+		"conjuncts_decided":               spec.Decided,
+		"conjuncts_out_of_reach":          spec.OutOfReach,
+		"bounded_standins":                spec.Bounded,
+		"bounded_standin_run":             standinInfo,
+		"contract_files":                  e.contracts.files,
+		"grammar":                         e.tree.src,
 	}
 	if len(samples) == 0 {
 		cov["samples"] = []interface{}{map[string]interface{}{"note": "all obligations closed by the simplifier"}}
@@ -683,16 +687,15 @@ func writeReplay(e *Engine, spec *PropSpec, o *Obligation, tier string) string {
 }
 
 type ReplayResult struct {
-	Reproduced bool        `json:"reproduced"`
-	Input      string      `json:"input,omitempty"`
-	Entry      string      `json:"entry,omitempty"`
-	Observed   string      `json:"observed,omitempty"`
-	Tried      int         `json:"candidates_tried"`
-	Note       string      `json:"note,omitempty"`
+	Reproduced bool   `json:"reproduced"`
+	Input      string `json:"input,omitempty"`
+	Entry      string `json:"entry,omitempty"`
+	Observed   string `json:"observed,omitempty"`
+	Tried      int    `json:"candidates_tried"`
+	Note       string `json:"note,omitempty"`
 }
 
 var _ = ssa.NewConst
-
 
 // ---------------------------------------------------------------- EMIT properties (C01..C07)
 
